@@ -84,7 +84,7 @@ def stepOp (s : DSt) (op : List String) (impl : List String) : DSt × Option Str
     let rj := s.ack.rj
     -- a jump above the cap is not replayed on the model state (`List.replicate` of up to 2^31 cells): the harness ends
     -- the case after such an operation; `pn_old_gap_fill` gives the model's cost = jump + 1
-    let big := match Pn.decode e rj.largest with | .ok pn => pn - rj.largest > costCap | .panic _ => false
+    let big : Bool := match Pn.decode e rj.largest with | .ok pn => decide (pn - rj.largest > costCap) | .panic _ => false
     if big then
       let theirs := " ".intercalate impl
       let pn := match Pn.decode e rj.largest with | .ok pn => pn | .panic _ => 0
